@@ -59,6 +59,8 @@ func genMethodStrings(rng *rand.Rand, names []string, n int) []string {
 var c04BadFrames = []string{`{"method":5}`, `{"method":{"a":"a.b.M"}}`, `{"method":["a.b.M"]}`, `["a.b.M"]`, `"a.b.M"`, `5`, `true`, `{"method":true,"parameters":{}}`,
 	`{"method":"a.b.M","more":"yes"}`, `{"method":"a.b.M","oneway":1}`, `{"method":"a.b.M"`, `{method:"a.b.M"}`, ``, ` `}
 
+var c04NoMethod = []string{`{}`, `null`, `{"method":null}`, `{"parameters":{"id":"x","steps":[{"op":"reply"}]}}`, `{"more":true}`, `{"method":""}`, `{"oneway":false,"parameters":null}`, ` { } `}
+
 func c04Conn(rng *rand.Rand, names []string, tag string, nm int) *ConnScript {
 	cs := &ConnScript{Seg: rng.Intn(4), SegS: rng.Int63()}
 	for i, m := range genMethodStrings(rng, names, nm) {
@@ -74,6 +76,11 @@ func c04Conn(rng *rand.Rand, names []string, tag string, nm int) *ConnScript {
 			c.Params = `{"interface":"a.b"}`
 		}
 		cs.Calls = append(cs.Calls, c)
+		if rng.Intn(5) == 0 {
+			// a well-formed frame without a string method right after a dispatched call: answered with
+			// InvalidParameter(method), never dispatched (in particular not to the previous call's target)
+			cs.Calls = append(cs.Calls, GenCall{Raw: c04NoMethod[rng.Intn(len(c04NoMethod))]})
+		}
 	}
 	// the connection must still be usable: a GetInfo at the end
 	cs.Calls = append(cs.Calls, GenCall{Method: "org.varlink.service.GetInfo"})
@@ -107,6 +114,9 @@ func runC04(r *fw.Run) {
 			for x := 0; x < nc; x++ {
 				tag++
 				cc.Conns = append(cc.Conns, c04Conn(rng, names, fmt.Sprintf("r%d", tag), nm))
+			}
+			if r.ViolationCount() > 12 || g.tainted {
+				break
 			}
 			r.Journal(0, cc)
 			c01Round(r, g, "C04", cc, true)
